@@ -1,8 +1,8 @@
 SPECIFICATION Spec
 CONSTANTS
-  MaxTokens = 4
-  BoundedAfter = TRUE
-  Fixed = FALSE
+  MaxTokens = 3
+  BoundedAfter = FALSE
+  Fixed = TRUE
 INVARIANT InBounds
 INVARIANT TextIsSlice
 INVARIANT Disjoint
